@@ -249,6 +249,9 @@ class Machine(object):
         self.called = set()      # function paths evaluated
         self.steps = 0
         self.max_steps = 5_000_000
+        self.cur_call_ty = None
+        self.fork_logic = False  # symbolic && / || : fork instead of building a term
+        self.vec_seed = None     # function(type string of a new Vec) -> initial items | None
 
     # ---- decisions -------------------------------------------------------
     def decide(self, term, where="", universe=None):
@@ -351,6 +354,16 @@ class Machine(object):
         for p in (r, d):
             if p and p in self.facts.bodies and self.facts.bodies[p].get("thir"):
                 return self.call_path(p, args, callee)
+        # dynamic dispatch of an unresolved crate-local trait method on a concrete receiver
+        if tr and not r and args:
+            recv = args[0]
+            while isinstance(recv, MutRef):
+                recv = recv.get()
+            if isinstance(recv, Adt):
+                for imp in self.facts.impls_of(trait=tr, self_adt=recv.path):
+                    for it in imp["items"]:
+                        if it["name"] == callee.get("name") and it["path"] in self.facts.bodies:
+                            return self.call_path(it["path"], args, callee)
         if not self.strict or self.opaque_unknown:
             return Term("call", r or d, *args)
         raise Unsupported("call to unmodelled function %s" % (r or d), where)
@@ -656,6 +669,13 @@ class Machine(object):
 
     def e_logic(self, e, env):
         l = self.eval(e["l"], env)
+        if isinstance(l, Term) and not self.strict and not self.fork_logic:
+            r = self.eval(e["r"], env)
+            if isinstance(r, bool):
+                if e["op"] == "And":
+                    return l if r else False
+                return True if r else l
+            return Term("and" if e["op"] == "And" else "or", l, r)
         if isinstance(l, Term):
             l = self.decide(l, e.get("sp", ""))
         if e["op"] == "And":
@@ -849,6 +869,7 @@ class Machine(object):
     def e_call(self, e, env):
         args = [self.byvalue(self.eval(a, env), a) for a in e["args"]]
         if "callee" in e:
+            self.cur_call_ty = e["ty"]
             return self.call_callee(e["callee"], args, e.get("sp", ""))
         f = self.eval(e["fun"], env)
         return self.call_value(f, args, e.get("sp", ""))
